@@ -1,8 +1,8 @@
 PROPERTIES = ['C03', 'C02']
 BOUNDS = {
-    'quick': 'static_set<Tracked,CAP> and flat_set<Tracked, static_vector<Tracked,CAP>>: one operation from every size; copy+move keys at capacity 3, move-only and copy-only keys at capacity 2; '
-             'NA keys before the operation in 0..CAP, second set / source block size NB in 0..CAP (enumerated); key values symbolic (pre-state keys pairwise distinct), erase positions symbolic (case-split)',
-    'thorough': 'capacities 1..4 for copy+move keys, 1..3 for move-only and copy-only keys, every (NA, NB)',
+    'quick': 'static_set<Tracked,CAP> and flat_set<Tracked, static_vector<Tracked,CAP>>: one operation from every size; static_set at capacity 2, flat_set at capacity 3 (copy+move keys, every size NA, second set / source block size NB in {0,1,2} / {0,1,3}); move-only and copy-only keys at capacity 2 from size 1; '
+             ' key values symbolic (pre-state keys pairwise distinct), erase positions symbolic (case-split)',
+    'thorough': 'static_set capacities 1..3 (copy+move) and 2 (move-only, copy-only), flat_set capacities 1..4 (copy+move) and 2..3 (move-only, copy-only), every (NA, NB)',
 }
 ASSUMPTIONS = [
     'C03: erase positions are valid iterators (pos < size(), first <= last <= size()); inserting a NEW key into a FULL flat_set over static_vector is outside its precondition '
@@ -33,19 +33,28 @@ def uw(blk, cap):
 def queries(tier, prop='C03'):
     ub = prop == 'C02'
     out = []
-    if tier == 'quick': grid = [(0, 3), (1, 2), (2, 2)]
-    else: grid = [(0, c) for c in (1, 2, 3, 4)] + [(f, c) for f in (1, 2) for c in (1, 2, 3)]
-    if ub: grid = [(0, 2)] if tier == 'quick' else [(0, 3), (1, 2)]
-    for (fl, cap) in grid:
+    # (container prefix, flavour, capacity, NB values of the two-object / range operations)
+    only_na = {}
+    if tier == 'quick':
+        grid = [('ss_', 0, 2, (0, 1, 2)), ('ss_', 1, 2, (0, 1)), ('ss_', 2, 2, (0, 1)),
+                ('fs_', 0, 3, (0, 1, 3)), ('fs_', 1, 2, (0, 1)), ('fs_', 2, 2, (0, 1))]
+        only_na = {1: (1,), 2: (1,)}   # quick: move-only and copy-only keys from the middle size only
+    else:
+        grid = [('ss_', 0, c, tuple(range(c + 1))) for c in (1, 2, 3)] + [('ss_', f, 2, (0, 1, 2)) for f in (1, 2)]
+        grid += [('fs_', 0, c, tuple(range(c + 1))) for c in (1, 2, 3, 4)] + [('fs_', f, c, tuple(range(c + 1))) for f in (1, 2) for c in (2, 3)]
+    if ub:
+        grid = [('ss_', 0, 2, (0, 1)), ('fs_', 0, 2, (0, 1))]
+        only_na = {0: (1,)} if tier == 'quick' else {}
+    for (pre, fl, cap, nbs) in grid:
         for na in range(cap + 1):
-            for nb in range(cap + 1):
+            if fl in only_na and na not in only_na[fl]: continue
+            for nb in nbs:
                 ents = []
-                for pre in ('ss_', 'fs_'):
-                    if nb == 0:
-                        ents += [pre + e for e in ANY] + ([pre + e for e in NONEMPTY] if na else [])
-                        if pre == 'fs_': ents += ['fs_' + e for e in FS_ANY] + (['fs_' + e for e in FS_NONEMPTY] if na else [])
-                    ents += [pre + e for e in PAIR + RANGE]
-                    if pre == 'fs_': ents += ['fs_' + e for e in FS_PAIR]
+                if nb == 0:
+                    ents += [pre + e for e in ANY] + ([pre + e for e in NONEMPTY] if na else [])
+                    if pre == 'fs_': ents += ['fs_' + e for e in FS_ANY] + (['fs_' + e for e in FS_NONEMPTY] if na else [])
+                ents += [pre + e for e in PAIR + RANGE]
+                if pre == 'fs_': ents += ['fs_' + e for e in FS_PAIR]
                 for e in ents:
                     base = e[3:]
                     if fl == 1 and (base in NEED_COPY or e == 'ss_emplace'): continue   # static_set::emplace requires a copy-constructible key
@@ -53,5 +62,7 @@ def queries(tier, prop='C03'):
                              budget=120 if tier == 'quick' else 900, ub=ub, nofunc=ub)
                     if base in KF_WHOLE and KF_WHOLE[base][1](na): q['kf_only'] = KF_WHOLE[base][0]
                     out.append(q)
-    for q_ in out: q_['lazy_trace'] = True   # verdict first, counterexample trace only when an obligation fails (engine/runner.py)
+    for q_ in out:
+        q_['lazy_trace'] = True   # verdict first, counterexample trace only when an obligation fails (engine/runner.py)
+        q_['cbmc_flags'] = ['--max-field-sensitivity-array-size', '256']   # the ledger (a 160-byte global) stays field-sensitive, so its contents are constants for symex
     return out
